@@ -174,6 +174,9 @@ func ExcInfo(err error) (typ string, bases []string, msg string, tb []TB) {
 	case *py.Exception:
 		t = e.Base
 		msg = safeErr(e)
+	case *py.Type:
+		// gpython returns a bare exception class as the error in places (py.Next -> StopIteration)
+		t = e
 	default:
 		return "GoError", nil, err.Error(), nil
 	}
